@@ -20,10 +20,16 @@ fn rel_close(a: f64, b: f64, scale: f64) -> bool {
 
 /// query lattice (lon, lat in degrees) for a geometry: per cell nodes, edge midpoints, centre,
 /// quarter points, 1e-9 deg either side of every cell edge; plus margin and outside points
+static THOROUGH: std::sync::atomic::AtomicBool = std::sync::atomic::AtomicBool::new(false);
+fn thorough() -> bool {
+    THOROUGH.load(std::sync::atomic::Ordering::Relaxed)
+}
+
 fn queries(g: &GeoDeg) -> Vec<(f64, f64, &'static str)> {
     let (rows, cols) = (g.rows(), g.cols());
     let mut q = Vec::new();
-    let fr = [0., 0.25, 0.5, 0.75, 1.];
+    // in-cell positions: quarters (quick), tenths (thorough)
+    let fr: Vec<f64> = if thorough() { (0..=10).map(|i| i as f64 / 10.).collect() } else { vec![0., 0.25, 0.5, 0.75, 1.] };
     for r in 0..rows - 1 {
         for c in 0..cols - 1 {
             for &fy in &fr {
@@ -50,7 +56,21 @@ fn queries(g: &GeoDeg) -> Vec<(f64, f64, &'static str)> {
     }
     // margin: 0.25 and 0.49 cells outside each border; outside: 0.51 and 2 cells
     let (latc, lonc) = ((g.lat_n + g.lat_s) / 2. + 0.1 * g.dlat, (g.lon_w + g.lon_e) / 2. + 0.1 * g.dlon);
-    for (m, class) in [(0.25, "margin"), (0.49, "margin"), (0.51, "outside"), (2., "outside")] {
+    let mut bands = vec![(0.25, "margin"), (0.49, "margin"), (0.51, "outside"), (2., "outside")];
+    if thorough() {
+        bands.extend([(0.05, "margin"), (0.4999, "margin"), (0.5001, "outside"), (0.75, "outside"), (10., "outside")]);
+        // along every side, not only at its middle
+        for (m, class) in bands.clone() {
+            for f in [0.02, 0.31, 0.77, 0.98] {
+                let (lat, lon) = (g.lat_s + f * (g.lat_n - g.lat_s), g.lon_w + f * (g.lon_e - g.lon_w));
+                q.push((g.lon_w - m * g.dlon, lat, class));
+                q.push((g.lon_e + m * g.dlon, lat, class));
+                q.push((lon, g.lat_n + m * g.dlat, class));
+                q.push((lon, g.lat_s - m * g.dlat, class));
+            }
+        }
+    }
+    for (m, class) in bands {
         q.push((g.lon_w - m * g.dlon, latc, class));
         q.push((g.lon_e + m * g.dlon, latc, class));
         q.push((lonc, g.lat_n + m * g.dlat, class));
@@ -62,9 +82,12 @@ fn queries(g: &GeoDeg) -> Vec<(f64, f64, &'static str)> {
 
 fn geometries() -> Vec<GeoDeg> {
     let mut v = Vec::new();
-    for (lat0, lon0) in [(54., 8.), (-3.5, 179.)] {
-        for (dlat, dlon) in [(1., 1.), (0.25, 0.5), (1. / 3., 0.25)] {
-            for (nr, nc) in [(2usize, 2usize), (2, 5), (3, 3), (5, 2), (5, 5)] {
+    let origins: Vec<(f64, f64)> = if thorough() { vec![(54., 8.), (-3.5, 179.), (-89., -180.), (0., 0.), (88., -1.)] } else { vec![(54., 8.), (-3.5, 179.)] };
+    let spacings: Vec<(f64, f64)> = if thorough() { vec![(1., 1.), (0.25, 0.5), (1. / 3., 0.25), (0.1, 0.7), (2., 0.05)] } else { vec![(1., 1.), (0.25, 0.5), (1. / 3., 0.25)] };
+    let shapes: Vec<(usize, usize)> = if thorough() { vec![(2, 2), (2, 5), (3, 3), (5, 2), (5, 5), (2, 9), (11, 3), (8, 8)] } else { vec![(2, 2), (2, 5), (3, 3), (5, 2), (5, 5)] };
+    for &(lat0, lon0) in &origins {
+        for &(dlat, dlon) in &spacings {
+            for &(nr, nc) in &shapes {
                 v.push(GeoDeg { lat_s: lat0, lat_n: lat0 + (nr - 1) as f64 * dlat, lon_w: lon0, lon_e: lon0 + (nc - 1) as f64 * dlon, dlat, dlon });
             }
         }
@@ -145,7 +168,9 @@ fn base_grid_checks(rep: &Report, outcomes: &Mutex<HashSet<u64>>) {
                 rep.eval(1);
                 if let Ok(Some(v)) = catch(|| grid.at(&Coor4D([lon, lat, 0., 0.]), 0.5)) {
                     for b in 0..bands {
-                        if !rel_close(v[b], reference.node(r, cidx, b), scale) {
+                        // (the node's longitude, built from decimal degrees, is rounded by about 1e-16 rad; divided by a
+                        // small cell size that is up to 1e-12 cells, times the difference between neighbouring nodes)
+                        if (v[b] - reference.node(r, cidx, b)).abs() > 1e-10 * scale {
                             rep.violation("node value is not reproduced at the node", json!({"grid": describe(), "row": r, "col": cidx, "band": b, "observed": v[b], "node": reference.node(r, cidx, b)}));
                         }
                     }
@@ -755,6 +780,7 @@ pub fn projected_grids(rep: &Report) {
 
 pub fn run(tier: Tier) -> Report {
     let rep = Report::new("C08", tier, "exploration");
+    THOROUGH.store(tier == Tier::Thorough, std::sync::atomic::Ordering::Relaxed);
     rep.rule("30 grid geometries x 1..3 bands x 5 text layouts: every cell x 25 in-cell positions + 1e-9 deg either side of inner cell edges + margin (0.25, 0.49 cells) and outside \
               (0.51, 2 cells) points; all orders of all non-empty subsets of 3 overlapping grids x null grid x a 0.3 deg point lattice (through grids_at point by point, and through the gridshift operator with the whole lattice as one set in two orders, and through deformation raw on three-band grids); 6 NTv2 tree shapes x all file orders x both byte \
               orders x a point lattice; operator conventions on generated grids. distinct_nontrivial = distinct interpolated value bit patterns");
@@ -784,6 +810,5 @@ pub fn run(tier: Tier) -> Report {
     let o = outcomes.into_inner().unwrap();
     rep.nontrivial_bulk(&o);
     rep.outcomes_bulk(&o);
-    let _ = tier;
     rep
 }
